@@ -20,6 +20,7 @@ type timeoutIn struct {
 	D       int           `json:"d"` // ms
 	Steps   []timeoutStep `json:"steps"`
 	Nested  bool          `json:"nested"`  // Timeout(2d) around Timeout(d)
+	Lazy    string        `json:"lazy"`    // a modifier applied to the wrapped action last before Timeout: the slow work sits behind it
 	InBatch bool          `json:"inBatch"` // the wrapped Timeout is one of two Batch members
 }
 
@@ -44,7 +45,12 @@ func runTimeout(raw json.RawMessage) interface{} {
 func runTimeoutOnce(in timeoutIn) (map[string]interface{}, bool) {
 	d := time.Duration(in.D) * time.Millisecond
 	release := make(chan struct{})
-	defer close(release) // lets "never returning" computations end with the case
+	released := false
+	defer func() { // lets "never returning" computations end with the case
+		if !released {
+			close(release)
+		}
+	}()
 	var cur atomic.Int64
 	wrapped := carapace.ActionCallback(func(c carapace.Context) carapace.Action {
 		i := int(cur.Load())
@@ -57,6 +63,15 @@ func runTimeoutOnce(in timeoutIn) (map[string]interface{}, bool) {
 		// an abandoned computation still produces (and writes) its result
 		return carapace.ActionValues("res" + strconv.Itoa(i)).Usage("usage" + strconv.Itoa(i)).NoSpace('x')
 	})
+	switch in.Lazy {
+	case "nospace":
+		wrapped = wrapped.NoSpace('x')
+	case "callback":
+		innerAction := wrapped
+		wrapped = carapace.ActionCallback(func(c carapace.Context) carapace.Action { return innerAction })
+	case "filterArgs":
+		wrapped = wrapped.FilterArgs()
+	}
 	a := wrapped.Timeout(d, carapace.ActionValues("alt").Usage("alternative"))
 	if in.Nested {
 		a = a.Timeout(2*d, carapace.ActionValues("outer-alt"))
@@ -69,7 +84,19 @@ func runTimeoutOnce(in timeoutIn) (map[string]interface{}, bool) {
 	for i, s := range in.Steps {
 		cur.Store(int64(i))
 		start := time.Now()
-		res := invokeSafe(a, carapace.Context{})
+		// watchdog: an answer that does not come at all (the bound is broken) must not hang the harness
+		doneCh := make(chan xResult, 1)
+		go func() { doneCh <- invokeSafe(a, carapace.Context{}) }()
+		var res xResult
+		select {
+		case res = <-doneCh:
+		case <-time.After(3 * time.Second):
+			if !released {
+				released = true
+				close(release)
+			}
+			res = <-doneCh
+		}
 		elapsed := time.Since(start)
 		vals := []string{}
 		for _, v := range res.Values {
@@ -81,7 +108,7 @@ func runTimeoutOnce(in timeoutIn) (map[string]interface{}, bool) {
 		if s.Dur >= 0 && s.Dur < in.D {
 			due = time.Duration(s.Dur) * time.Millisecond
 		}
-		if elapsed >= due+d/2 {
+		if (d > 0 && elapsed >= due+d/2) || (d <= 0 && elapsed >= 25*time.Millisecond) {
 			stalled = true
 		}
 		time.Sleep(time.Duration(s.Gap) * time.Millisecond)
@@ -90,7 +117,14 @@ func runTimeoutOnce(in timeoutIn) (map[string]interface{}, bool) {
 }
 
 func genTimeout(r *rng, tier string) interface{} {
-	in := timeoutIn{D: pick(r, []int{30, 40, 60}), Nested: r.chance(20), InBatch: r.chance(25)}
+	in := timeoutIn{D: pick(r, []int{30, 40, 60}), Nested: r.chance(20), InBatch: r.chance(25), Lazy: pick(r, []string{"", "", "nospace", "callback", "filterArgs"})}
+	if r.chance(8) {
+		// no time at all (an exhausted budget): the alternative at once, a slow computation is not waited for
+		in.D = pick(r, []int{0, 0, -5})
+		in.Nested = false
+		in.Steps = []timeoutStep{{Dur: 150, Gap: 160}, {Dur: 120, Gap: 0}}[:1+r.intn(2)]
+		return in
+	}
 	n := 1 + r.intn(3)
 	for i := 0; i < n; i++ {
 		dur := pick(r, []int{0, 0, in.D / 4, in.D * 4, in.D * 3, -1})
